@@ -692,50 +692,33 @@ func checkPageTagging(c *Ctx, rule string) {
 	p := c.P
 	pos := func(in ssa.Instruction) string { return p.Pos(in.Pos()) }
 	// ---------- R1 receive page tagged with the order id the packet will get ----------
-	getNext := p.Func("(*packetManager).getNextOrderID")
-	newOID := p.Func("(*packetManager).newOrderID")
-	newReq := p.Func("(*packetManager).newOrderedRequest")
-	if getNext == nil || newOID == nil || newReq == nil {
-		c.missing(rule, "getNextOrderID/newOrderID/newOrderedRequest")
-	} else {
-		var nextT, issuedT term
-		okNext, okIssued := false, false
-		eachInstr(getNext, func(in ssa.Instruction) {
-			if r, ok := in.(*ssa.Return); ok && isReturn(in) {
-				nextT = affineOf(r.Results[0])
-				okNext = true
+	w := p.oid()
+	{
+		// the id the next request will get: the value an advance stores (all advances agree)
+		var issuedT term
+		okIssued := len(w.advances) > 0
+		for i, st := range w.advances {
+			t := affineOf(st.Val)
+			if i > 0 && !t.equal(issuedT) {
+				okIssued = false
 			}
-		})
-		// newOrderID: the value stored into packetCount, and the value returned is a load after that store
-		var st *ssa.Store
-		eachInstr(newOID, func(in ssa.Instruction) {
-			if s, ok := in.(*ssa.Store); ok {
-				if fa, ok := s.Addr.(*ssa.FieldAddr); ok {
-					if _, n, _, _ := fieldOf(fa); n == "packetCount" {
-						st = s
-					}
-				}
-			}
-		})
-		if st != nil {
-			issuedT = affineOf(st.Val)
-			eachInstr(newOID, func(in ssa.Instruction) {
-				if r, ok := in.(*ssa.Return); ok && isReturn(in) {
-					for _, l := range leavesOf(r.Results[0]) {
-						if l.Kind == leafFieldLoad && l.Field == "packetCount" {
-							if li, ok := l.V.(ssa.Instruction); ok && dominates(st, li) {
-								okIssued = true
-							}
-						}
-						if l.V == st.Val {
-							okIssued = true
-						}
-					}
-				}
-			})
+			issuedT = t
 		}
-		c.check(okNext && okIssued && nextT.equal(issuedT), rule, "getNextOrderID predicts newOrderID", p.Pos(getNext.Pos()),
-			"both are packetCount+1", fmt.Sprintf("getNextOrderID returns %s but the next order id issued is %s: the page that holds a received packet is filed under another request's order id and released while still in use", nextT, issuedT))
+		// what the value of a call is, as an affine term over the callee's own state (one level of module calls)
+		termOf := func(v ssa.Value) (term, bool) {
+			for _, l := range leavesOf(v) {
+				if l.Kind == leafCallResult {
+					if f := l.Call.StaticCallee(); f != nil && inModule(f) && f.Blocks != nil {
+						rls := returnLeaves(f, l.Idx)
+						if len(rls) == 1 {
+							return affineOf(rls[0].v), true
+						}
+					}
+					return term{}, false
+				}
+			}
+			return affineOf(v), true
+		}
 		for _, name := range []string{"(*Server).Serve", "(*RequestServer).serveLoop"} {
 			fn := p.Func(name)
 			if fn == nil {
@@ -750,24 +733,16 @@ func checkPageTagging(c *Ctx, rule string) {
 			}
 			rc := recvs[0]
 			arg := argsOf(callOf(rc))[0]
-			fromNext := false
-			for _, l := range leavesOf(arg) {
-				if l.Kind == leafCallResult && l.Call.StaticCallee() == getNext {
-					fromNext = true
-				}
-			}
-			c.check(fromNext, rule, name+" receive page tag", pos(rc), "recvPacket(getNextOrderID())", "the receive buffer is not tagged with getNextOrderID()")
+			nextT, okNext := termOf(arg)
+			c.check(okNext && okIssued && nextT.equal(issuedT), rule, name+" receive page tag predicts the order id", pos(rc),
+				"the page is filed under packetCount+1, which is what the next advance stores", fmt.Sprintf("the receive buffer is filed under %s but the next order id issued is %s: the page that holds a received packet is filed under another request's order id and released while still in use", nextT, issuedT))
 			l := innermostLoop(loopsOf(fn), rc.Block())
 			if l == nil {
 				c.bad(rule, name+" receive loop", pos(rc), "recvPacket is not in a loop")
 				continue
 			}
-			isNewReq := func(in ssa.Instruction) bool {
-				cc := callOf(in)
-				return cc != nil && cc.StaticCallee() == newReq
-			}
-			_, mx, n := countPaths(fn, rc, isLoopHeadStart(l), isNewReq)
-			c.check(n == 0 || mx <= 1, rule, name+" one order id per received packet", pos(rc), "at most one newOrderedRequest between two receives", "more than one order id can be issued per received packet: the prediction used to tag the page is off")
+			_, mx, n := countPaths(fn, rc, isLoopHeadStart(l), w.isIssue)
+			c.check(n == 0 || mx <= 1, rule, name+" one order id per received packet", pos(rc), "at most one order id is issued between two receives", "more than one order id can be issued per received packet: the prediction used to tag the page is off")
 		}
 		// the connection and the packet manager share one allocator
 		for _, name := range []string{"WithAllocator$1", "WithRSAllocator$1"} {
